@@ -58,17 +58,18 @@ def write_workspace(root, cases, feature, shard_fn=None, order_rng=None):
     return index
 
 
-def run_workspace(root, feature, tag):
-    """cargo check with the recorder on; returns list of dump files"""
+def run_workspace(root, feature, tag, release=False):
+    """cargo check with the recorder on; returns list of dump files.
+    release: build the macro under the release profile (no debug assertions, no overflow checks in the macro crate)"""
     prefix = os.path.join(root, "dump")
     for f in glob.glob(prefix + ".*"):
         os.remove(f)
     target = os.path.join(WORK, "target-corpus-%s" % ("on" if feature else "off"))
     env = {"RUSTFLAGS": "--cfg %s --cap-lints allow" % GUARD, "ENTRAIT_VERIF_DUMP": prefix, "CARGO_TARGET_DIR": target,
            "CARGO_INCREMENTAL": "0"}
-    rc, out, dt = run(["cargo", "check", "--offline", "--workspace", "--keep-going", "-j", "16", "--message-format=short"],
-                      cwd=root, env=env, timeout=3000)
-    log("[corpus] cargo check (%s, feature=%s): rc=%d %.1fs" % (tag, feature, rc, dt))
+    rc, out, dt = run(["cargo", "check", "--offline", "--workspace", "--keep-going", "-j", "16", "--message-format=short"] +
+                      (["--release"] if release else []), cwd=root, env=env, timeout=3000)
+    log("[corpus] cargo check (%s, feature=%s%s): rc=%d %.1fs" % (tag, feature, ", release profile" if release else "", rc, dt))
     if "could not compile `entrait_macros`" in out or "could not compile `entrait`" in out or "error: failed to" in out:
         log(out[-3000:])
         raise SystemExit(2)
@@ -144,7 +145,7 @@ def attribute(rows, index, cases):
     return attributed, unattributed, missing
 
 
-def run_cases(cases, name, root=None, shard_fn=None, order_rng=None, features=(False, True)):
+def run_cases(cases, name, root=None, shard_fn=None, order_rng=None, features=(False, True), release=False):
     """cases through the real macro in both feature settings; returns the result dict"""
     root = root or os.path.join(WORK, "corpus", name)
     os.makedirs(root, exist_ok=True)
@@ -153,7 +154,7 @@ def run_cases(cases, name, root=None, shard_fn=None, order_rng=None, features=(F
         fname = "on" if feature else "off"
         ws = os.path.join(root, fname)
         index = write_workspace(ws, cases, feature, shard_fn, order_rng)
-        dumps, out, panics = run_workspace(ws, feature, name)
+        dumps, out, panics = run_workspace(ws, feature, name, release)
         rows = model_rows(dumps, ws)
         attributed, unattributed, missing = attribute(rows, index, cases)
         result["rows"][fname] = attributed
@@ -192,7 +193,8 @@ def load_or_run(seed, tier, keep_others=False):
 
 
 def rerun_shuffled(res, seed, runs=1):
-    """the same cases again: other compiler processes, other sharding, shuffled order (for C20).
+    """the same cases again: other compiler processes, other sharding, shuffled order, and (first re-run) the macro built
+    under the other cargo profile — release: no debug assertions (for C20).
     Only the feature-off workspace unless runs > 1. Cached next to the corpus."""
     import random
     root = os.path.join(WORK, "corpus", res["key"])
@@ -215,7 +217,7 @@ def rerun_shuffled(res, seed, runs=1):
                 return RISKY[c.family]
             return "shard%02d" % ((c.cid * 7 + salt) % (NSHARDS - 1 - k % 3))
         feats = (False,) if k == 0 else (True,) if k == 1 else (False, True)
-        r = run_cases(cases, res["key"] + "-rerun", os.path.join(root, "rerun-ws"), shard_fn, rng, feats)
+        r = run_cases(cases, res["key"] + "-rerun", os.path.join(root, "rerun-ws"), shard_fn, rng, feats, release=(k == 0))
         for f, rows in r["rows"].items():
             out.setdefault(f, []).extend(rows)
     shutil.rmtree(os.path.join(root, "rerun-ws"), ignore_errors=True)
